@@ -388,6 +388,76 @@ def _conversions(prog, fn, pairs, conv, skip=None, depth=0):
     return got, probs
 
 
+def _x8_by_trace(prog, f, conv):
+    """decide X8 on the calls the wrapper ends in (every library call logged with its evaluated arguments, unknown results
+    followed both ways): on every path on which the entry function was asked, each converter call is `conv` on one of the
+    token objects the entry function was given and the matching value pointer of the wrapper; a wrapper that only delegates
+    to a static worker with constants is judged on that worker with those constants.  None = not decidable this way."""
+    from sa import interp as I
+    if len(f.params) < 6:
+        return None
+    args = [I.Sym("arg:" + p_["name"]) for p_ in f.params]
+    g = f
+    for _ in range(2):
+        # thin delegate: the body is one call handing on parameters and constants
+        calls = [c for c in g.calls() if prog.fn(c.get("callee") or "") is not None]
+        if len(calls) == 1 and prog.fn(calls[0]["callee"]).static and len(g.blocks) <= 4 and \
+                calls[0]["callee"] not in ("SCPI_ExprNumericListEntry",):
+            names = [p_["name"] for p_ in g.params]
+            nxt = []
+            for a in C.call_args(calls[0]):
+                pth = a.strip_all_casts().get("path")
+                cv = C.const_of(a)
+                if pth in names:
+                    nxt.append(args[names.index(pth)])
+                elif cv is not None:
+                    nxt.append(cv)
+                else:
+                    return None
+            g, args = prog.fn(calls[0]["callee"]), nxt
+        else:
+            break
+    try:
+        outs, m = I.explore(prog, g.name, args, follow=lambda n_: prog.fn(n_) is not None and prog.fn(n_).static)
+    except I.Stuck:
+        return None
+    vfrom, vto = None, None
+    vfrom, vto = "arg:" + f.params[4]["name"], "arg:" + f.params[5]["name"]
+    npaths = 0
+    entry_call = next((c for c in g.calls("SCPI_ExprNumericListEntry")), None)
+    for out in outs:
+        fr = out[1]
+        log = getattr(fr, "plog", None)
+        if log is None:
+            return None
+        ent = [(n, a) for n, a in log if n == "SCPI_ExprNumericListEntry"]
+        if not ent:
+            continue
+        if len(ent) != 1 or len(ent[0][1]) < 6:
+            return None
+        tf, tt = ent[0][1][4], ent[0][1][5]
+        if not isinstance(tf, I.Ptr) or not isinstance(tt, I.Ptr):
+            return None
+        npaths += 1
+        for n, a in log:
+            if n == "SCPI_ExprNumericListEntry":
+                continue
+            hands = [x for x in a if (isinstance(x, I.Ptr) and (x == tf or x == tt)) or
+                     (isinstance(x, I.Sym) and x.name in (vfrom, vto))]
+            if not hands:
+                continue
+            if n != conv:
+                return False, "`%s` is handed the entry's token / the caller's value pointer instead of %s" % (n, conv), entry_call
+            tok, val = (a[1], a[2]) if len(a) >= 3 else (None, None)
+            pair_ok = (isinstance(tok, I.Ptr) and isinstance(val, I.Sym) and val.intact() and
+                       ((tok == tf and val.name == vfrom) or (tok == tt and val.name == vto)))
+            if not pair_ok:
+                return False, "%s is applied to a token / destination pair that does not belong together" % conv, entry_call
+    if not npaths:
+        return None
+    return True, "%d path(s) through %s: only %s on (from -> %s) and (to -> %s)" % (npaths, g.name, conv, f.params[4]["name"], f.params[5]["name"]), entry_call
+
+
 def rule_x8(ck, prog, S):
     for wname, conv in (("SCPI_ExprNumericListEntryInt", "SCPI_ParamToInt32"), ("SCPI_ExprNumericListEntryDouble", "SCPI_ParamToDouble")):
         f = prog.fn(wname)
@@ -396,6 +466,13 @@ def rule_x8(ck, prog, S):
             continue
         ck.analysed(f)
         st = K.site(f, "converts-the-delivered-tokens", 0)
+        verdict = _x8_by_trace(prog, f, conv)
+        if verdict is not None:
+            okk, text, node = verdict
+            (ck.holds if okk else ck.violated)("C19-X8", st, K.loc(f, node) if node is not None else K.loc(f),
+                                               text if okk else "%s: %s: the value is not the entry as written (a detour through another "
+                                               "type rounds it, a bounded copy of the text cuts it)" % (wname, text))
+            continue
         ent = list(f.calls("SCPI_ExprNumericListEntry"))
         if len(ent) != 1 or len(f.params) < 6:
             ck.anchor_lost("C19-X8", "%s: one call of SCPI_ExprNumericListEntry" % wname)
